@@ -7,27 +7,9 @@ import gen as G
 THIS = REPO + "/snaps/zz_verif_c11_test.go"
 
 
-def sprintf_d(fmt, k):
-    """fmt.Sprintf(fmt, k) for formats holding only `%%` and one `%d`; anything else is returned marked (it cannot be a path
-    the property describes)"""
-    out, i, used = [], 0, False
-    while i < len(fmt):
-        c = fmt[i]
-        if c != "%":
-            out.append(c); i += 1; continue
-        nxt = fmt[i + 1] if i + 1 < len(fmt) else ""
-        if nxt == "%":
-            out.append("%"); i += 2
-        elif nxt == "d" and not used:
-            out.append(str(k)); used = True; i += 2
-        else:
-            out.append("%!" + nxt + "(BAD VERB)"); i += 2
-    return "".join(out)
-
-
 class C11(Prop):
     pid = "C11"
-    fields = {"snappath": "*"}
+    fields = {"snappath": ["probe", "cfgsame", "path"]}
     rule = ("white-box: Dir in {unset, relative, nested relative, with .. and ., absolute, trailing slash} x Filename x Ext x "
             "{MatchSnapshot, MatchStandaloneSnapshot, MatchStandaloneJSON} x test names with / x call shapes (direct, helpers in a "
             "non-test source file (1-2 levels), helper in another _test.go file, closures, goroutine under a helper) x trimpath switch, "
@@ -108,13 +90,20 @@ class C11(Prop):
                 exp = exp[1:]
             got = unhx(o["path"]).decode("latin-1")
             if api in ("stand", "standjson"):
-                # the standalone location is a FORMAT for the ordinal: what counts is the path it gives for an ordinal (here 7) -
-                # `%%` prints a '%', the one `%d` prints the ordinal, nothing else may be in it
-                got = sprintf_d(got, 7)
-                exp = posixpath.normpath(posixpath.join(full, (name if name else test.replace("/", "_")) + "_7.snap" + ext))
+                # the standalone location: what counts is the path of the k-th call. The harness asked the library itself for the
+                # path of the FIRST call (its own ordinal registry applied to the generic path) - how the generic path marks the
+                # place of the ordinal is the library's business
+                if o.get("first") in (None, "-", "*"):
+                    continue
+                got = unhx(o["first"]).decode("latin-1")
+                exp = posixpath.normpath(posixpath.join(full, (name if name else test.replace("/", "_")) + "_1.snap" + ext))
                 if exp.startswith("//"):
                     exp = exp[1:]
-            if got != exp:
+            # (two spellings of one path - `/abs//dir/x` and `/abs/dir/x` - name the same file)
+            gotn = posixpath.normpath(got)
+            if gotn.startswith("//"):
+                gotn = gotn[1:]
+            if gotn != exp:
                 fails.append({"msg": "snappath %d (%s via %s): %s, the property text says %s" % (idx, api, shape, got, exp)})
         return fails
 
